@@ -57,7 +57,7 @@ splice('/repo/homescript/analyzer/ast/zz_contracts_verif.go',''.join(a))
 for pkg in ['runtime/value','interpreter/value']:
     r=['\n// Every member the analyzer offers on a type exists on every value of that type.\n\n']
     for kind,(st,vt,mem) in T.items():
-        names=sorted(mem)
+        names=sorted(list(mem)+OPTIONAL.get(kind,[]))
         inv = ('    loop 1 invariant fresh(fields) && '+' && '.join(f'haskey(fields, "{n}")' for n in names)+'\n') if kind=='Object' else ''
         r.append(f'/*@ func (self {vt}) Fields\n    serves C18, C02\n    ensures @has-every-offered-member ret1 == nil ==> '+' && '.join(f'haskey(ret0, "{n}")' for n in names)+'\n    ensures @no-interrupt ret1 == nil\n'+inv+'@*/\n\n')
     splice(f'/repo/homescript/{pkg}/zz_contracts_verif.go',''.join(r))
